@@ -111,8 +111,17 @@ fn run_many(def: &CheckDef, base_seed: u64, n: u64, tier: Tier, workers: usize) 
                     if i >= n {
                         break;
                     }
+                    if let Some(only) = env_u64("VERIF_ONLY_RUN") {
+                        if i != only {
+                            continue;
+                        }
+                    }
                     let seed = run_seed(base_seed, def.info.id, i);
+                    let ops_before = acc.ops;
                     let r = std::panic::catch_unwind(std::panic::AssertUnwindSafe(|| (def.run)(seed, tier, &mut acc)));
+                    if std::env::var_os("VERIF_TRACE_RUNS").is_some() {
+                        eprintln!("run {i} seed {seed} ops {}", acc.ops - ops_before);
+                    }
                     match r {
                         Ok(fs) => {
                             if !fs.is_empty() {
